@@ -51,6 +51,10 @@ pub struct Script {
     pub tcp_silent: bool,
     /// close the TCP connection instead of answering
     pub tcp_close: bool,
+    /// TCP replies are written in two pieces: the first `cut` octets (of length prefix +
+    /// message), then after `gap_ms` the rest (what segmentation does to any reply larger than
+    /// the path MTU)
+    pub tcp_split: Option<(usize, u64)>,
 }
 
 impl Default for Script {
@@ -65,6 +69,7 @@ impl Default for Script {
             tc_udp: false,
             tcp_silent: false,
             tcp_close: false,
+            tcp_split: None,
         }
     }
 }
@@ -311,13 +316,27 @@ fn tcp_conn(mut stream: TcpStream, from: SocketAddr, st: Arc<UpState>) {
         let bytes = build_reply(&script, &q, false, false);
         let w = writer.clone();
         let delay = script.delay_ms;
+        let split = script.tcp_split;
         let send = move || {
             let mut out = Vec::with_capacity(bytes.len() + 2);
             out.extend_from_slice(&(bytes.len() as u16).to_be_bytes());
             out.extend_from_slice(&bytes);
-            let _ = w.lock().unwrap().write_all(&out);
+            // one reply at a time on the stream, also while it is written in two pieces
+            let mut g = w.lock().unwrap();
+            match split {
+                Some((cut, gap)) if cut > 0 && cut < out.len() => {
+                    let _ = g.set_nodelay(true);
+                    let _ = g.write_all(&out[..cut]);
+                    let _ = g.flush();
+                    std::thread::sleep(Duration::from_millis(gap));
+                    let _ = g.write_all(&out[cut..]);
+                }
+                _ => {
+                    let _ = g.write_all(&out);
+                }
+            }
         };
-        if delay == 0 {
+        if delay == 0 && split.is_none() {
             send();
         } else {
             std::thread::spawn(move || {
